@@ -300,12 +300,14 @@ Theorem C08_dfxp_roundtrip_string : forall cs, cs <> [] -> in_day cs -> text_dom
 Proof. exact dfxp_roundtrip_string. Qed.
 Print Assumptions C08_dfxp_roundtrip_string.
 
-(* every chain of SRT / MicroDVD / WebVTT / DFXP document hops returns the closed-form times AND the unchanged text *)
-Theorem C08_chain_doc_text_four_formats : forall chain cs lo, forallb line_fmt4 chain = true -> cs <> [] -> 0 <= lo ->
+(* every chain of SRT / MicroDVD / WebVTT / DFXP document hops returns the closed-form times AND the unchanged text.
+   _partial: hypotheses beyond the statement's quantifier whatever the chain - cues >= 40 ms (dom_u 40000), SRT's and WebVTT's
+   clean-line domains (no & < >) - and one pass only *)
+Theorem C08_chain_doc_text_four_formats_partial : forall chain cs lo, forallb line_fmt4 chain = true -> cs <> [] -> 0 <= lo ->
   dom_u 40000 lo (times_of_caps cs) -> text_dom cs = true -> srt_text_dom cs = true -> vtt_text_dom cs = true ->
   exists out, run_doc chain cs = Ok out /\ times_of_caps out = run chain (times_of_caps cs) /\ map snd out = map snd cs.
 Proof. exact run_doc_text4. Qed.
-Print Assumptions C08_chain_doc_text_four_formats.
+Print Assumptions C08_chain_doc_text_four_formats_partial.
 
 Example C08_ex_chain_with_dfxp :
   let cs := [(1000999, 2500000, [Str.lit "hello"; Str.lit "a b"]); (3600000000, 3600079999, [Str.lit "x y"])] in
@@ -332,12 +334,12 @@ Proof. exact sami_roundtrip_string. Qed.
 Print Assumptions C08_sami_roundtrip_string.
 
 (* EVERY chain of document hops over SRT / WebVTT / DFXP / SAMI / MicroDVD returns the spec's times (closed form:
-   C08_chain_closed_form) AND the unchanged text lines *)
-Theorem C08_chain_doc_text_five_formats : forall chain cs lo, cs <> [] -> 0 <= lo ->
+   C08_chain_closed_form) AND the unchanged text lines.  _partial: same extra hypotheses as the four-format theorem *)
+Theorem C08_chain_doc_text_five_formats_partial : forall chain cs lo, cs <> [] -> 0 <= lo ->
   dom_u 40000 lo (times_of_caps cs) -> text_dom cs = true -> srt_text_dom cs = true -> vtt_text_dom cs = true ->
   exists out, run_doc chain cs = Ok out /\ times_of_caps out = run chain (times_of_caps cs) /\ map snd out = map snd cs.
 Proof. exact run_doc_text5. Qed.
-Print Assumptions C08_chain_doc_text_five_formats.
+Print Assumptions C08_chain_doc_text_five_formats_partial.
 
 Example C08_ex_chain_with_sami :
   let cs := [(1000999, 2500000, [Str.lit "hello"; Str.lit "a b"]); (3600000000, 3600079999, [Str.lit "x y"])] in
